@@ -183,6 +183,8 @@ class BddExt(Extension):
             return SV('bound', None, (base, attr))
         if base.ty == 'ordering':
             return SV('bound', None, (base, attr))
+        if base.ty == 'bclass' and base.x == 'BDDTerminalNode' and attr == 'Tnodes':
+            return SV('tnodes')
         if base.ty == 'obdd':
             if attr == 'root':
                 return SV('bnode', h['o_root'][base.t])
@@ -205,6 +207,12 @@ class BddExt(Extension):
         if not self.on(ex) or base.ty != 'bnode':
             return False
         h = path.heap
+        if attr == 'value':
+            if v.ty != 'bool':
+                raise Unsupported('terminal value := %s' % v.ty)
+            E.check_write(ex, ('b_val', base.t), path, st)
+            path.heap = h.with_(b_val=z3.Store(h['b_val'], base.t, v.t))
+            return True
         comp = {'var': 'b_var', 'low': 'b_low', 'high': 'b_high', 'f_low': 'b_fl', 'f_high': 'b_fh'}.get(attr)
         if comp is None:
             raise Unsupported('field %s' % attr)
@@ -225,9 +233,15 @@ class BddExt(Extension):
     def member(self, E, ex, a, b, path, node):
         if self.on(ex) and a.ty == 'bnode' and b.ty in ('refdict', 'refdict2'):
             return path.heap['rd_dom'][b.t][a.t]
+        if self.on(ex) and a.ty == 'bool' and b.ty == 'tnodes':
+            return path.heap['tn_has'][a.t]
         return None
 
     def subscript(self, E, ex, base, idx, path, node):
+        if self.on(ex) and base.ty == 'tnodes' and idx.ty == 'bool':
+            h = path.heap
+            ex.may_raise('KeyError', z3.Not(h['tn_has'][idx.t]), path, node)
+            return SV('bnode', h['tn_ref'][idx.t])
         if self.on(ex) and base.ty in ('refdict', 'refdict2') and idx.ty == 'bnode':
             h = path.heap
             ex.may_raise('KeyError', z3.Not(h['rd_dom'][base.t][idx.t]), path, node)
@@ -235,6 +249,10 @@ class BddExt(Extension):
         return None
 
     def assign_subscript(self, E, ex, base, idx, v, path, st):
+        if self.on(ex) and base.ty == 'tnodes' and idx.ty == 'bool' and v.ty == 'bnode':
+            h = path.heap
+            path.heap = h.with_(tn_has=z3.Store(h['tn_has'], idx.t, True), tn_ref=z3.Store(h['tn_ref'], idx.t, v.t))
+            return True
         if not self.on(ex) or base.ty not in ('refdict', 'refdict2') or idx.ty != 'bnode':
             return False
         if v.ty != ('bnode' if base.ty == 'refdict' else 'refdict'):
@@ -319,6 +337,8 @@ class BddExt(Extension):
             E.check_write(ex, (comp, ref), path, node)
             path.heap = h.with_(**{comp: z3.Store(h[comp], ref, z3.Store(h[comp][ref], args[0].t, True))})
             return hp.NONE
+        if base.ty == 'bnode' and attr == '__reset__' and len(args) == 1:
+            return E.call_contract(ex, 'BDDTerminalNode.__reset__', [base] + args, kwargs, path, node)
         if base.ty == 'bnode' and attr == '__reset__':
             return E.call_contract(ex, 'BDDNonTerminalNode.__reset__', [base] + args, kwargs, path, node)
         if base.ty == 'bnode' and attr == '__invert__':
@@ -339,9 +359,10 @@ class BddExt(Extension):
             # object.__new__(cls): a new object, registered nowhere, fields unset
             r, h = path.heap.new()
             # isinstance(node, BDDNonTerminalNode) is decided by the class: cls is that class
-            path.heap = h.with_(b_term=z3.Store(h['b_term'], r, z3.BoolVal(False)), b_node=z3.Store(h['b_node'], r, z3.BoolVal(True)))
+            is_terminal_class = ex.k.qualname.startswith('BDDTerminalNode')
+            path.heap = h.with_(b_term=z3.Store(h['b_term'], r, z3.BoolVal(is_terminal_class)), b_node=z3.Store(h['b_node'], r, z3.BoolVal(True)))
             return SV('bnode', r)
-        if attr == '__reset__' and cls == 'BDDNonTerminalNode':
+        if attr == '__reset__' and cls in ('BDDNonTerminalNode', 'BDDTerminalNode'):
             recv = ex.ev(node.func.value.args[1], path)
             return E.call_contract(ex, 'BDDNode.__reset__', [recv], {}, path, node)
         return None
@@ -568,11 +589,11 @@ def install(E):
     # C17: the operations compute the right function (denotation = GHOST component b_den)
     # =====================================================================================================
     SG = z3.Const('sigma!op', hp.SetH)
-    DT = set(BT) | {'rd_dom', 'rd_val', 'b_val'}
+    DT = set(BT) | {'rd_dom', 'rd_val', 'b_val', 'tn_has', 'tn_ref'}
 
     def node_state(h):
         return [('table_invariant', inv(h)), ('ghost_denotations', den_inv(h)), ('ghost_orderings', resp_inv(h)),
-                ('children_are_nodes', children_ok(h))]
+                ('children_are_nodes', children_ok(h)), ('terminal_table', tnodes_inv(h))]
 
     def nodes_kept(h0, h1):
         """constructed nodes stay as they are: fields, constants, denotations, registrations among old objects"""
@@ -584,17 +605,62 @@ def install(E):
                 ('old_nodes_stay_nodes', z3.ForAll([n], z3.Implies(node_ok(h0, n), node_ok(h1, n)), patterns=[low(h1, n)])),
                 ('alloc', h1.alloc >= h0.alloc)]
 
-    # -- BDDTerminalNode.__new__: ASSUMED (class-level dictionary Tnodes keyed by 0/1/False/True) -----------
+    # -- BDDTerminalNode.__reset__ / __new__ (class-level dictionary Tnodes keyed by the Boolean value) ---------
+    def treset_req(c):
+        h, s_ = c.h0, c.self.t
+        m = R('m')
+        return [('table_invariant', inv(h, exclude=s_)), ('ghost_denotations', den_inv(h, exclude=s_)), ('ghost_orderings', resp_inv(h, exclude=s_)),
+                ('self_valid', valid(h, s_)), ('self_is_a_terminal', term(h, s_)),
+                ('self_unregistered', z3.ForAll([m], z3.Implies(z3.And(valid(h, m), m != s_), z3.And(z3.Not(fl(h, m)[s_]), z3.Not(fh(h, m)[s_])))))]
+
+    def treset_ens(c):
+        h0, h1, s_ = c.h0, c.h1, c.self.t
+        n = R()
+        return [('no_allocation', h1.alloc == h0.alloc),
+                ('table_invariant', inv(h1)), ('ghost_denotations', den_inv(h1)), ('ghost_orderings', resp_inv(h1)),
+                ('the_constant', z3.And(term(h1, s_), val(h1, s_) == c.value.t, h1['b_node'][s_])),
+                ('other_nodes_kept', z3.ForAll([n], z3.Implies(z3.And(valid(h0, n), n != s_), z3.And(
+                    var(h1, n) == var(h0, n), low(h1, n) == low(h0, n), high(h1, n) == high(h0, n), term(h1, n) == term(h0, n),
+                    val(h1, n) == val(h0, n), den(h1, n) == den(h0, n), resp(h1, n) == resp(h0, n), h1['b_node'][n],
+                    fl(h1, n) == fl(h0, n), fh(h1, n) == fh(h0, n))), patterns=[den(h1, n)]))]
+
+    def treset_ghost(c, p):
+        # GHOST code at the exit of BDDTerminalNode.__reset__: a terminal denotes its constant and respects every ordering
+        h = p.heap
+        s_ = c.self.t
+        p.heap = h.with_(b_den=z3.Store(h['b_den'], s_, z3.K(hp.SetH, c.value.t)),
+                         b_resp=z3.Store(h['b_resp'], s_, z3.K(I, z3.BoolVal(True))))
+
+    def treset_frame(c):
+        from .contracts_graph import frame
+        own = lambda r: r == c.self.t       # noqa
+        return frame(c.h0, c.h1, c.h0.alloc, {k_: own for k_ in ('b_val', 'b_den', 'b_resp', 'b_fl', 'b_fh')})
+
+    E.register(Contract(
+        'BDDTerminalNode.__reset__', 'bdd', [('self', 'bnode'), ('value', 'bool')], ret='none',
+        requires=treset_req, ensures=treset_ens, frame=treset_frame,
+        may_write=lambda c, comp, ref: (ref == c.self.t) if comp in ('b_val', 'b_fl', 'b_fh') else None,
+        touches=set(BT) | {'b_val'}, hints=dict(common, ghost_exit=treset_ghost), owner='C17'), FILE)
+
+    def tnodes_inv(h):
+        b = z3.Bool('b!tn')
+        t = h['tn_ref'][b]
+        return z3.ForAll([b], z3.Implies(h['tn_has'][b], z3.And(valid(h, t), term(h, t), val(h, t) == b)), patterns=[h['tn_has'][b]])
+
     def tnew_ens(c):
         h1, r = c.h1, c.res.t
         return node_state(h1) + nodes_kept(c.h0, h1) + [
             ('the_constant_node', z3.And(valid(h1, r), term(h1, r), val(h1, r) == c.value.t))]
 
+    def tnew_frame(c):
+        from .contracts_graph import frame
+        return frame(c.h0, c.h1, c.h0.alloc, {})
+
     E.register(Contract(
         'BDDTerminalNode.__new__', 'bdd', [('cls', 'str'), ('value', 'bool')], ret='bnode',
-        requires=lambda c: node_state(c.h0), ensures=tnew_ens, touches=set(DT), hints=dict(common), owner='C17', assumed=True,
-        note='ASSUMED: returns the terminal node of the Boolean value (one per value, kept in the class-level dictionary Tnodes, '
-             'which is not modelled); constructed nodes are left as they are'), FILE)
+        requires=lambda c: node_state(c.h0), ensures=tnew_ens, frame=tnew_frame,
+        touches=set(DT) | {'tn_has', 'tn_ref'}, hints=dict(common), owner='C17',
+        note='value of type bool (0/1 are the same keys in Python); the class-level dictionary Tnodes is a global of the heap model'), FILE)
 
     VV = z3.Const('v!top', H)
     OO = z3.Int('o!any')
